@@ -304,6 +304,7 @@ func RunLoaded(l *Loaded, o Opts) *report.Report {
 			if json.Unmarshal(b, &h) == nil && len(h.Shared)+len(h.Try) > 0 {
 				m.SetHints(h.Shared, h.Try)
 				hinted = true
+				m.Hinted = true
 			}
 		}
 	}
